@@ -11,7 +11,11 @@
    Part L: the library's logic as the code sequences those calls (after the repairs in
    fixes/C19/04..06): flag mapping of File::open, size() by three lseeks, readAll, write(String),
    rename with the exclusive placeholder, copy with sendfile, createSymbolicLink,
-   Directory::exists, recursive Directory::create, recursive Directory::unlink by entry type. *)
+   Directory::exists, recursive Directory::create, recursive Directory::unlink by entry type;
+   round 3: File::flush, File::exists, static File::readAll(path), File::getAbsolutePath over
+   Directory::getCurrentDirectory, Directory::change, the enumeration Directory::open / read /
+   close (pattern, dirsOnly, entry types), Directory::purge, and Directory::unlink / purge with a
+   system call that fails (fault oracle), which reaches the error-unwinding branches. *)
 From Coq Require Import ZArith List Bool.
 From Path Require Import PathSpec PathModel FsSpec.
 Import ListNotations.
@@ -344,15 +348,30 @@ Definition f_read (st : state) (h : nat) (n : nat) : state * (list Z + errno) :=
   | Some f => let (f', x) := k_read st f n in (set_handle st h (Some f'), x)
   end.
 
-(* File::readAll(data) *)
+(* File::readAll(data); repaired (fixes/C19/10): a handle on a directory is refused before size()
+   is asked - lseek(SEEK_END) on a directory answers what the file system likes (2^63-1 on ext4),
+   and the String was resized to that *)
 Definition f_readAll (st : state) (h : nat) : state * (bool * list Z) :=
-  let (st1, size) := f_size st h in
-  if size <? 0 then (st1, (false, []))
-  else
-    match f_read st1 h (Z.to_nat size) with
-    | (st2, inr _) => (st2, (false, []))
-    | (st2, inl d) => (st2, (true, d))
-    end.
+  match hfind (handles st) h with
+  | None => (st, (false, []))
+  | Some f =>
+      if fd_dir f then (st, (false, []))                      (* fstat: S_ISDIR -> EISDIR *)
+      else
+        let (st1, size) := f_size st h in
+        if size <? 0 then (st1, (false, []))
+        else
+          match f_read st1 h (Z.to_nat size) with
+          | (st2, inr _) => (st2, (false, []))
+          | (st2, inl d) => (st2, (true, d))
+          end
+  end.
+
+(* File::flush(): fsync succeeds on a descriptor of any mode and changes nothing the model sees *)
+Definition f_flush (st : state) (h : nat) : state * bool :=
+  match hfind (handles st) h with
+  | None => (st, false)
+  | Some _ => (st, true)
+  end.
 
 (* File::write(const String&): true when everything was written *)
 Definition f_write (st : state) (h : nat) (d : list Z) : state * bool :=
@@ -383,6 +402,7 @@ Definition h_step (st : state) (h : nat) (o : hop) : state * hout :=
                | (st', inr _) => (st', OData false [])
                end
   | HSize => let (st', z) := f_size st h in (st', OInt z)
+  | HFlush => let (st', b) := f_flush st h in (st', OBool b)
   end.
 
 Fixpoint h_run (st : state) (h : nat) (os : list hop) : state * list hout :=
@@ -537,6 +557,241 @@ Fixpoint d_unlink (fuel : nat) (st : state) (dir : str) (recursive : bool) : sta
         end
   end.
 
+(* ---- round 3 ------------------------------------------------------------------------------------ *)
+
+Definition is_some {A} (o : option A) : bool := match o with None => false | Some _ => true end.
+
+(* File::exists: lstat succeeds (a symbolic link counts, whatever it points to) *)
+Definition f_exists (st : state) (path : str) : bool := is_some (k_lstat st path).
+
+(* a File object of its own: a handle number no open handle has *)
+Definition fresh_handle (st : state) : nat :=
+  S (fold_right (fun kf m => Nat.max (fst kf) m) O (handles st)).
+
+(* static File::readAll(path, data): a local File, open(path) with the default readFlag, readAll,
+   and the destructor closes *)
+Definition f_readAll_path (st : state) (path : str) : state * (bool * list Z) :=
+  let h := fresh_handle st in
+  match f_open st h path true false false false with
+  | (st1, false) => (st1, (false, []))
+  | (st1, true) => let '(st2, r) := f_readAll st1 h in (f_close st2 h, r)
+  end.
+
+(* K: getcwd() - the canonical path of the current directory as a text *)
+Definition cwd_text (st : state) : str := 47 :: join (cwd st).
+
+(* File::getAbsolutePath(path) with the text Directory::getCurrentDirectory() returned *)
+Definition getAbsolutePath (cwdt path : str) : str :=
+  if isAbsolutePath path then path else cwdt ++ 47 :: path.
+
+Definition f_absolute (st : state) (path : str) : str := getAbsolutePath (cwd_text st) path.
+
+Definition set_cwd (st : state) (d : cpath) : state :=
+  {| root := root st; cwd := d; handles := handles st |}.
+
+(* K: chdir() *)
+Definition k_chdir (st : state) (path : str) : state * option errno :=
+  match resolve st true path with
+  | WErr e => (st, Some e)
+  | WDir d _ => (set_cwd st d, None)
+  | WAt d nm (Some SDir) => (set_cwd st (d ++ [nm]), None)
+  | WAt _ _ None => (st, Some ENOENT)
+  | WAt _ _ (Some _) => (st, Some ENOTDIR)
+  end.
+
+(* Directory::change *)
+Definition d_change (st : state) (dir : str) : state * bool :=
+  let (st', e) := k_chdir st dir in (st', is_none e).
+
+(* K: fnmatch(pattern, name, 0) for patterns of literal bytes, '*' (42) and '?' (63); without
+   flags a wildcard also matches a leading '.'.  Bracket expressions and backslash escapes are not
+   modelled (not generated). *)
+Fixpoint glob (p : str) : str -> bool :=
+  match p with
+  | [] => fun s => match s with [] => true | _ => false end
+  | c :: p' =>
+      if c =? 42 then
+        fix star (s : str) : bool :=
+          glob p' s || match s with [] => false | _ :: s' => star s' end
+      else fun s =>
+        match s with
+        | [] => false
+        | x :: s' => ((c =? 63) || (c =? x)) && glob p' s'
+        end
+  end.
+
+(* K: opendir + the whole sequence of readdir answers, "." and ".." (both DT_DIR) included *)
+Definition k_opendir (st : state) (path : str) : list (str * snode) + errno :=
+  match k_readdir st path with
+  | inl ents => inl ((DOT1, SDir) :: (DOTDOT, SDir) :: ents)
+  | inr e => inr e
+  end.
+
+(* the Directory object while it is open: what open() stored and the entries readdir has not
+   handed out yet *)
+Record dirh := { dh_path : str; dh_pat : str; dh_only : bool; dh_rest : list (str * snode) }.
+
+(* Directory::open(dirpath, pattern, dirsOnly): refused (EINVAL) while the object is open; an
+   empty dirpath means "." *)
+Definition d_open (st : state) (cur : option dirh) (path pat : str) (only : bool) : option dirh * bool :=
+  match cur with
+  | Some _ => (cur, false)
+  | None =>
+      match k_opendir st (match path with [] => DOT1 | _ => path end) with
+      | inl ents => (Some {| dh_path := path; dh_pat := pat; dh_only := only; dh_rest := ents |}, true)
+      | inr _ => (None, false)
+      end
+  end.
+
+(* Directory::close *)
+Definition d_close (cur : option dirh) : option dirh := None.
+
+Definition is_dots (nm : str) : bool := str_eqb nm DOT1 || str_eqb nm DOTDOT.
+Definition is_sdir (k : snode) : bool := match k with SDir => true | _ => false end.
+Definition is_slink (k : snode) : bool := match k with SLink _ => true | _ => false end.
+
+(* the text Directory::read hands to stat(): dirpath + '/' + name, the bare name for an empty dirpath *)
+Definition entry_path (dirpath nm : str) : str :=
+  match dirpath with [] => nm | _ => dirpath ++ 47 :: nm end.
+
+(* the loop of Directory::read over the entries readdir still has: the first entry that passes
+   the pattern, the dirsOnly filter and the "." / ".." filter, with isDir = DT_DIR, or - for a
+   symbolic link - whether stat() finds a directory behind it.  (With dirsOnly a link is dropped
+   by the first filter already, so the `else if(dirsOnly) continue` after stat() is never taken;
+   it is mirrored all the same.) *)
+Fixpoint read_loop (st : state) (path pat : str) (only : bool) (rest : list (str * snode))
+  : list (str * snode) * option (str * bool) :=
+  match rest with
+  | [] => ([], None)
+  | (nm, k) :: t =>
+      if negb (nonempty pat) || glob pat nm then
+        let isDir := is_sdir k in
+        if only && negb isDir then read_loop st path pat only t
+        else
+          let '(isDir2, skip) :=
+            if negb isDir && is_slink k then
+              match k_stat st (entry_path path nm) with
+              | Some SDir => (true, false)
+              | _ => (false, only)
+              end
+            else (isDir, false) in
+          if skip then read_loop st path pat only t
+          else if isDir2 && is_dots nm then read_loop st path pat only t
+          else (t, Some (nm, isDir2))
+      else read_loop st path pat only t
+  end.
+
+(* Directory::read(name, isDir): false (EINVAL) on a closed object; false at the end, and the
+   object stays open *)
+Definition d_read (st : state) (cur : option dirh) : option dirh * option (str * bool) :=
+  match cur with
+  | None => (None, None)
+  | Some dh =>
+      let (rest', r) := read_loop st (dh_path dh) (dh_pat dh) (dh_only dh) (dh_rest dh) in
+      (Some {| dh_path := dh_path dh; dh_pat := dh_pat dh; dh_only := dh_only dh; dh_rest := rest' |}, r)
+  end.
+
+(* read() until it says false *)
+Fixpoint d_read_all (fuel : nat) (st : state) (cur : option dirh) : option dirh * list (str * bool) :=
+  match fuel with
+  | O => (cur, [])
+  | S f =>
+      match d_read st cur with
+      | (cur', None) => (cur', [])
+      | (cur', Some e) => let (c2, l) := d_read_all f st cur' in (c2, e :: l)
+      end
+  end.
+
+Definition read_all_fuel (cur : option dirh) : nat :=
+  match cur with Some dh => S (length (dh_rest dh)) | None => 1%nat end.
+
+(* ---- a system call that fails ----------------------------------------------------------------------
+   Which call of an operation fails is an input: Some n = the (n+1)-th of the calls rmdir / unlink /
+   opendir / readdir made from now on fails with EIO, None = none does. *)
+Definition faults := option nat.
+
+Definition tick (o : faults) : bool * faults :=
+  match o with
+  | Some O => (true, None)
+  | Some (S n) => (false, Some n)
+  | None => (false, None)
+  end.
+
+(* File::unlink under the oracle *)
+Definition f_unlink_o (o : faults) (st : state) (path : str) : state * bool * faults :=
+  let (bad, o1) := tick o in
+  if bad then (st, false, o1) else let (st', b) := f_unlink st path in (st', b, o1).
+
+(* the readdir loop of Directory::unlink, call by call: every readdir is a call that may fail
+   (dent == 0 with errno set: closedir, return false); "." and ".." come first and are skipped *)
+Fixpoint unlink_entries_o (recur : faults -> state -> str -> state * bool * faults) (o : faults) (st : state)
+         (prefix : str) (ents : list (str * snode)) : state * bool * faults :=
+  let (bad, o1) := tick o in
+  if bad then (st, false, o1)
+  else
+    match ents with
+    | [] => (st, true, o1)
+    | (nm, k) :: t =>
+        if is_sdir k && is_dots nm then unlink_entries_o recur o1 st prefix t
+        else
+          let '(st1, ok, o2) := match k with
+                                | SDir => recur o1 st (prefix ++ nm)
+                                | _ => f_unlink_o o1 st (prefix ++ nm)
+                                end in
+          if ok then unlink_entries_o recur o2 st1 prefix t else (st1, false, o2)
+    end.
+
+(* Directory::unlink(dir, recursive) with every branch: a failing first rmdir (not ENOTEMPTY),
+   a failing opendir, a failing readdir, a failing removal of an entry, a failing last rmdir *)
+Fixpoint d_unlink_o (fuel : nat) (o : faults) (st : state) (dir : str) (recursive : bool) : state * bool * faults :=
+  let (bad, o1) := tick o in
+  match (if bad then (st, Some EIO) else k_rmdir st dir) with
+  | (st1, None) => (st1, true, o1)
+  | (_, Some e) =>
+      if negb recursive || negb (is_enotempty e) then (st, false, o1)
+      else
+        match fuel with
+        | O => (st, false, o1)
+        | S f =>
+            let (bad2, o2) := tick o1 in
+            match (if bad2 then inr EIO else k_opendir st dir) with
+            | inr _ => (st, false, o2)
+            | inl ents =>
+                let '(st1, ok, o3) :=
+                  unlink_entries_o (fun o' s p => d_unlink_o f o' s p true) o2 st (dir ++ [47]) ents in
+                if ok then
+                  let (bad3, o4) := tick o3 in
+                  let (st2, e2) := (if bad3 then (st1, Some EIO) else k_rmdir st1 dir) in
+                  (st2, is_none e2, o4)
+                else (st1, false, o3)
+            end
+        end
+  end.
+
+(* the climb of Directory::purge: rmdir the directory name of the text, of that, ... until the
+   text is "." or an rmdir fails.  Every round shortens the text, so its length + 1 is enough fuel. *)
+Fixpoint purge_up_o (fuel : nat) (o : faults) (st : state) (i : str) : state * faults :=
+  match fuel with
+  | O => (st, o)
+  | S f =>
+      if str_eqb i DOT1 then (st, o)
+      else
+        let (bad, o1) := tick o in
+        match (if bad then (st, Some EIO) else k_rmdir st i) with
+        | (st', None) => purge_up_o f o1 st' (getDirectoryName i)
+        | (_, Some _) => (st, o1)
+        end
+  end.
+
+(* Directory::purge(path, recursive) *)
+Definition d_purge_o (fuel : nat) (o : faults) (st : state) (path : str) (recursive : bool) : state * bool :=
+  let '(st1, ok, o1) := d_unlink_o fuel o st path recursive in
+  if ok then (fst (purge_up_o (S (length path)) o1 st1 (getDirectoryName path)), true)
+  else (st1, false).
+
+Definition d_purge (fuel : nat) (st : state) (path : str) (recursive : bool) : state * bool :=
+  d_purge_o fuel None st path recursive.
+
 (* enough for any tree the drivers build *)
 Definition unlink_fuel (st : state) : nat := S (height (root st)).
 
@@ -559,7 +814,9 @@ Inductive fsop :=
 | OpOpen (h : nat) (p : str) (fr fw fa fo : bool) | OpClose (h : nat) | OpHandle (h : nat) (o : hop)
 | OpFUnlink (p : str) | OpSymlink (target p : str)
 | OpRename (a b : str) (fie : bool) | OpCopy (a b : str) (fie : bool) (orc : list xfer)
-| OpCreate (p : str) | OpDUnlink (p : str) (recursive : bool).
+| OpCreate (p : str) | OpDUnlink (p : str) (recursive : bool)
+| OpReadAllPath (p : str) | OpChdir (p : str)
+| OpDUnlinkO (o : faults) (p : str) (recursive : bool) | OpPurge (o : faults) (p : str) (recursive : bool).
 
 Definition fs_step (st : state) (o : fsop) : state :=
   match o with
@@ -575,6 +832,10 @@ Definition fs_step (st : state) (o : fsop) : state :=
   | OpCopy a b fie orc => fst (f_copy_o orc st a b fie)
   | OpCreate p => fst (d_create (create_fuel p) st p)
   | OpDUnlink p r => fst (d_unlink (unlink_fuel st) st p r)
+  | OpReadAllPath p => fst (f_readAll_path st p)
+  | OpChdir p => fst (d_change st p)
+  | OpDUnlinkO o p r => fst (fst (d_unlink_o (unlink_fuel st) o st p r))
+  | OpPurge o p r => fst (d_purge_o (unlink_fuel st) o st p r)
   end.
 
 Definition fs_run (st : state) (os : list fsop) : state := fold_left fs_step os st.
